@@ -45,7 +45,7 @@ BUDGET = 2.0         # seconds: the awaiting caller must be released within this
 
 SDL = """
 type Item { id: ID  name: String  slow: String  nn: String!  sub: Item  kids: [Item] }
-type Query { a: String  b: String  nn: String!  hero: Item  other: Item  items: [Item]  gen: [Item]  strs: [String] }
+type Query { a: String  b: String  nn: String!  hero: Item  other: Item  items: [Item]  gen: [Item]  nnitems: [Item!]  strs: [String] }
 type Mutation { a: String  b: String  c: String  nn: String!  hero: Item  items: [Item]  gen: [Item] }
 type Subscription { ev: Item }
 """
@@ -211,6 +211,19 @@ class World:
                 world.trace.append(("src_close", rec.name))
                 await asyncio.sleep(0)
 
+        if spec["$src"] in ("iterable", "iterable-closable"):
+            # an async iterable that is not its own iterator: __aiter__() hands out a separate iterator object;
+            # the iterator has aclose(), the iterable itself only in the "-closable" variant (then closing the
+            # iterable instead of the iterator is visible as a close of the wrong object: it is not counted)
+            class Iterable:
+                def __aiter__(self):
+                    return It()
+
+            if spec["$src"] == "iterable-closable":
+                async def _iterable_aclose(self):
+                    world.trace.append(("iterable_close", rec.name))
+                Iterable.aclose = _iterable_aclose
+            return Iterable()
         return It()
 
     # -- hook
@@ -930,6 +943,7 @@ K_CANCELLED_LIST = "cancelled-list-completion:class-source-not-closed"
 K_HOOK_EARLY = "hook-fired-before-cancelled-deferred-work-settled"
 K_ABORT_HANG = "abort-with-pending-early-stream-item:consumer-never-released"
 K_UNREACHABLE = "work-of-failed-fragment-or-unintegrated-result:never-cancelled"
+K_SUB_ITERATOR = "subscription-without-abort-signal:separate-source-iterator-never-closed"
 
 ST_CODE = {None: 0, "pending": 1, "fulfilled": 2, "rejected": 3}
 
@@ -1090,6 +1104,11 @@ class Recorder:
                         result.add_done_callback(
                             lambda f, rec=rec, obj=obj: f.cancelled() or getattr(obj, "_aborted", False)
                             or rec["events"].append(4))
+                        # an item future that FAILS (non-null item): batches() then runs _cleanup on the consumer
+                        # side, which the queue machine has no event for
+                        result.add_done_callback(
+                            lambda f, rec=rec: (not f.cancelled()) and f.exception() is not None
+                            and rec.__setitem__("item_failed", True))
                     else:
                         rec["events"].append(3)
                 return await q_push(obj, result)
@@ -1156,7 +1175,7 @@ class Recorder:
             o = rec["obj"]
             t = getattr(o, "_producer_task", None)
             queues.append({"eager": rec["eager"], "has_cb": rec["has_cb"], "cb_async": rec["cb_async"], "cap": rec["cap"],
-                           "events": list(rec["events"]), "cb": rec["cb"],
+                           "events": list(rec["events"]), "cb": rec["cb"], "item_failed": bool(rec.get("item_failed")),
                            "aborted": bool(getattr(o, "_aborted", False)), "finished": bool(getattr(o, "_finished", False)),
                            "prod": 0 if t is None else (2 if t.done() else 1),
                            "pending": len([f for f in getattr(o, "_pending_futures", ()) if not f.done()])})
@@ -1444,6 +1463,40 @@ def sequences(alphabet, n):
 def extra_scenarios():
     """Templates added for specific stop points (requested regression scenarios)."""
     S = []
+    # sources that are async ITERABLES with a separate iterator object
+    for sk in ("iterable", "iterable-closable"):
+        S.append(dict(name=f"exec-list-{sk}", kind="exec", doc="{ a gen { id name } }",
+                      root={"a": G("x"), "gen": SRC(sk, [item(0), item(1, name=G("n1")), item(2)], gated=True)}))
+        S.append(dict(name=f"exec-list-{sk}-item-nonnull-raises", kind="exec", doc="{ gen { id nn } b }",
+                      root={"b": G("y"), "gen": SRC(sk, [item(0, nn="k"), item(1, nn=G(err="boom")), item(2, nn="k")])}))
+        S.append(dict(name=f"exec-list-{sk}-item-nonnull-raises-sync", kind="exec", doc="{ gen { id nn } }",
+                      root={"gen": SRC(sk, [item(0, nn="k"), item(1, nn={"$raise": "boom"}), item(2, nn="k")])}))
+        S.append(dict(name=f"stream-{sk}", kind="incr", doc="{ items @stream(initialCount: 1) { id name } }",
+                      root={"items": SRC(sk, [item(0), item(1, name=G("n1")), item(2), item(3)], gated=True)}))
+        S.append(dict(name=f"stream-{sk}-ungated-item-nonnull-raises", kind="incr",
+                      doc="{ items @stream(initialCount: 0) { id nn } a }",
+                      root={"a": G("x"), "items": SRC(sk, [item(0, nn="k"), item(1, nn=G(err="boom")), item(2, nn="k")])}))
+        S.append(dict(name=f"sub-{sk}", kind="sub", doc="subscription { ev { id name } }",
+                      root={"ev": SRC(sk, [{"ev": item(0)}, {"ev": item(1, name=G("n1"))}, {"ev": item(2)}])}))
+        S.append(dict(name=f"sub-{sk}-gated", kind="sub", doc="subscription { ev { id name } }",
+                      root={"ev": SRC(sk, [{"ev": item(0)}, {"ev": item(1)}, {"ev": item(2)}], gated=True)}))
+        S.append(dict(name=f"sub-{sk}-resolver-raises", kind="sub", doc="subscription { ev { id nn } }",
+                      root={"ev": SRC(sk, [{"ev": item(0, nn="k")}, {"ev": item(1, nn=G(err="boom"))}, {"ev": item(2, nn="k")}])}))
+    # a streamed list with NON-NULL items whose item starts nested work (a nested @stream over an async source, a
+    # nested @defer) and then fails asynchronously through a non-null field of its own
+    for sk in ("agen", "aiter", "iterable"):
+        for outer in ("list", "agen"):
+            S.append(dict(name=f"stream-nonnull-items-{outer}-nested-stream-{sk}-item-fails", kind="incr",
+                          doc="{ nnitems @stream(initialCount: 0) { id nn kids @stream(initialCount: 0) { id } } a }",
+                          root={"a": G("x"),
+                                "nnitems": SRC(outer, [{"id": 0, "nn": G(err="boom"),
+                                                        "kids": SRC(sk, [item(0), item(1)], gated=True, name="kids0")},
+                                                       {"id": 1, "nn": "k",
+                                                        "kids": SRC(sk, [item(0)], gated=True, name="kids1")}])}))
+    S.append(dict(name="stream-nonnull-items-nested-defer-item-fails", kind="incr",
+                  doc="{ nnitems @stream(initialCount: 0) { id nn ... @defer { name slow } } }",
+                  root={"nnitems": SRC("list", [{"id": 0, "nn": G(err="boom"), "name": G("n", coro=True),
+                                                 "slow": G("s", coro=True)}])}))
     # the payload stream ends because fragments FAIL while sibling execution groups are still in flight:
     # overlapping fragments sharing a failing non-null field, each with private work (plain and nested)
     for coro in (False, True):
@@ -1503,7 +1556,7 @@ def extra_scenarios():
 def random_scenario(rng, i):
     """A request composed from building blocks; every choice comes from rng."""
     parts, root = [], {}
-    sk = lambda: rng.choice(["agen", "aiter", "agen", "aiter", "list"])  # noqa: E731
+    sk = lambda: rng.choice(["agen", "aiter", "agen", "aiter", "list", "iterable"])  # noqa: E731
 
     def gate_or(v, p_err=0.15):
         r = rng.random()
@@ -1584,7 +1637,7 @@ def random_subscription(rng, i):
                    "nn": (G(err="boom") if rng.random() < 0.2 else "k")}} for j in range(n)]
     ra = rng.choice([None, None, n - 1])
     return dict(name=f"random-sub-{i}", kind="sub", doc="subscription { ev { id name nn } }",
-                root={"ev": SRC(rng.choice(["agen", "aiter"]), evs, gated=rng.random() < 0.8, raise_at=ra, name="ev")},
+                root={"ev": SRC(rng.choice(["agen", "aiter", "iterable"]), evs, gated=rng.random() < 0.8, raise_at=ra, name="ev")},
                 stream_raises=ra is not None)
 
 
@@ -1760,6 +1813,10 @@ def canon_key(key, cls, scen, out):
         # a stream (or early started task) carried by the result of a fragment that failed, or by a result that
         # was not integrated into the work queue when the consumer stopped, is not reachable for cancel()
         return K_UNREACHABLE
+    if scen["kind"] == "sub" and not scen.get("signal") and cls == "source-not-closed" \
+            and any(x["kind"].startswith("iterable") and x["started"] and not x["aclose_calls"] for x in out.sources):
+        # map_async_iterable closes the iterable, not the iterator that `async for` obtained from it
+        return K_SUB_ITERATOR
     if cls == "source-closed-twice":
         return K_TWICE
     if cls == "source-not-closed" and not out.leaked:
@@ -1856,6 +1913,12 @@ def run(tier):
                 comp_meta.append((ctx, tr))
             for tr in out.siq_traces:
                 evs = tr["events"]
+                if tr.get("item_failed"):
+                    # consumer-side cleanup after a failed item future (batches() -> _cleanup, which runs the
+                    # abort callback even when the source had finished) is outside the machine's fragment; the
+                    # run itself is still judged by the leak predicates
+                    ck.count("skipped_out_of_fragment_item_future_failed")
+                    continue
                 if 7 in evs and any(e in (2, 3, 5, 6) for e in evs[evs.index(7):]):
                     # the producer swallowed its cancellation and went on producing (lazy execution under an
                     # abort signal: with_abort_signal swallows CancelledError); outside the machine's fragment
@@ -1932,7 +1995,7 @@ def run(tier):
     return ck.finish()
 
 
-REPRO_KEYS = {"F1": K_UNSTARTED, "F3": K_ORPHAN, "F4": K_TWICE, "F5": K_CANCELLED_LIST, "F6": K_HOOK_EARLY, "F7": K_ABORT_HANG, "F8": K_UNREACHABLE, "F9": K_UNREACHABLE}
+REPRO_KEYS = {"F1": K_UNSTARTED, "F3": K_ORPHAN, "F4": K_TWICE, "F5": K_CANCELLED_LIST, "F6": K_HOOK_EARLY, "F7": K_ABORT_HANG, "F8": K_UNREACHABLE, "F9": K_UNREACHABLE, "F10": K_SUB_ITERATOR, "F11": K_UNREACHABLE}
 
 
 def run_repro_scripts(ck):
